@@ -143,6 +143,16 @@ func (m *udpModel) flush() bool {
 }
 
 func c15Sequence(c *mon.Ctx, seq []int, r *mon.Rand, enumerated bool) {
+	// single goroutine, deterministic: what is compared travels over loopback
+	// UDP, so a finding must reproduce on replay (mon.Ctx.Replayed)
+	if r == nil {
+		c.Replayed(mon.NewRand(1), func(*mon.Rand) { c15SequenceOnce(c, seq, nil, enumerated) })
+		return
+	}
+	c.Replayed(r, func(rr *mon.Rand) { c15SequenceOnce(c, seq, rr, enumerated) })
+}
+
+func c15SequenceOnce(c *mon.Ctx, seq []int, r *mon.Rand, enumerated bool) {
 	wdNames := make([]string, len(seq))
 	for i, op := range seq {
 		wdNames[i] = opNames[op]
@@ -366,6 +376,10 @@ func head(b []byte) []byte {
 // c15Multi: with no failing destination every destination sees the same
 // datagram sequence; Close is idempotent; use after Close is a not-open error.
 func c15Multi(c *mon.Ctx, r *mon.Rand) {
+	c.Replayed(r, func(rr *mon.Rand) { c15MultiOnce(c, rr) })
+}
+
+func c15MultiOnce(c *mon.Ctx, r *mon.Rand) {
 	stopW := c.Watchdog(60*time.Second, "transport-call-does-not-return", "multi-destination transport run")
 	defer stopW()
 	n := r.Range(1, 3)
